@@ -36,7 +36,7 @@ def main():
         path = os.path.join(sd, "checks.json")
         if os.path.exists(path):
             out = json.load(open(path))
-        env = dict(os.environ, VERIF_REPO=wt, CARGO_NET_OFFLINE="true")
+        env = dict(os.environ, VERIF_REPO=wt, CARGO_NET_OFFLINE="true", VERIF_HARNESS_SNAPSHOT="1")
         for p in props:
             t = time.time()
             r = subprocess.run([sys.executable, os.path.join(ROOT, "tools", "verif.py"), "check", p, "--tier", tier],
